@@ -249,6 +249,8 @@ def conditions(tier, seed):
     rnd = random.Random(seed)
     to = 240 if thorough else 40
     for idx, sig in enumerate(SIGS):
+        if not thorough and (idx + seed) % 2:
+            continue  # quick: a seed-rotated half of the signatures
         name = "m(%s)%s%s%s" % (",".join(f"{n}:{d}" for n, d in zip(NAMES, sig["defaults"])),
                                 "+varargs" if sig["v"] else "", "+kwargs" if sig["k"] else "", "+caller" if sig["c"] else "")
         vias = ["python", "star", "callblock"]
